@@ -25,6 +25,30 @@ CHECKS = {
         note='Trusted: z3, the symnp facade (validated by witness replay on real numpy), characters as integer codes. '
              "'At most half of the overlap' is read as ceil(o/2) from the left part, floor(o/2) from the right part.",
         design='4/C15'),
+    'C14': dict(
+        text='Bounded symbolic execution of the real confusion_networks.py (add_hypothese, normalize_cn, produce_cn_from_boh, '
+             'best_cn_path, sorted_cn_paths) with levenshtein_alignment_path over histories of hypotheses made of symbolic '
+             'characters (every equality pattern, every addition order) and symbolic positive scores; the network is the '
+             "code's own list of dicts.  After every addition z3 decides, under the path condition, that every hypothesis "
+             'added so far is readable in order, that the old network embeds position-wise, that each pre-existing position '
+             'gained exactly the score on one arc, that normalised positions sum to 1 and that the path enumeration lists '
+             'every arc combination once in non-increasing order summing to 1.  Bound: 1..3 hypotheses of length <= 3 '
+             '(quick) / <= 4 (thorough); nothing is claimed beyond it.',
+        note='Trusted: z3, the symnp facade (validated by witness replay on the real module), characters as integer codes, '
+             'math.exp as an uninterpreted positive increasing function.  One recorded known finding (empty hypothesis added '
+             'to an empty network leaves no trace).',
+        design='4/C14'),
+    'C05': dict(
+        text='Bounded symbolic execution of the real force_alignment.py (force_align, viterbi_align, compute_update, '
+             'backtrack, align_text ...) on a T x C cost matrix of extended reals (each entry a symbolic real or +inf, the '
+             'inf pattern symbolic), symbolic labels and symbolic blank index.  Per path z3 decides that the returned state '
+             'path is a valid CTC alignment of the labels, that no valid competitor alignment (T universally quantified '
+             'state variables) is cheaper, that ValueError is raised iff no finite-cost alignment exists or the blank is '
+             'among the labels, and that align_text positions are strictly increasing, lie in the frames of their character '
+             'and are the most confident of them.  Bound: T<=4, L<=2, C=3 quick; T<=5, L<=3 and C=4 (T<=3) thorough.',
+        note='Trusted: z3 (linear real arithmetic), the symnp facade (validated by witness replay on real numpy/numba), '
+             'numba jit = identity on the same source; reals stand for floats (no nan).',
+        design='4/C05'),
 }
 
 NOT_APPLICABLE = {
